@@ -40,8 +40,10 @@ def build(S, tier, seed):
 def _battery(S, r, o):
     a = scenarios.put_faults_battery(S.interp.repo)
     c = scenarios.put_volumes_battery(S.interp.repo)
-    return {'confirmed': a['confirmed'] or c['confirmed'], 'faults': a,
-            'volumes': c}
+    d = scenarios.put_xdev_battery(S.interp.repo, 'move')
+    return {'confirmed': a['confirmed'] or c['confirmed'] or d['confirmed'],
+            'problems': (a['problems'] + c['problems'] + d.get('problems', []))[:12],
+            'faults': a, 'volumes': c, 'cross_device': d}
 
 
 REPLAYERS = {'': _battery}
